@@ -22,7 +22,7 @@ ASSUMPTIONS = ['audit events open/os.mkdir/os.remove/os.rename cover the ways th
 
 def plan(tier):
     return {'cases_per_shard': 130 if tier == 'quick' else 2600,
-            'time_cap_s': 45 if tier == 'quick' else 560}
+            'time_cap_s': 90 if tier == 'quick' else 560}
 
 
 def run_case(cs, ctx):
